@@ -710,6 +710,13 @@ def run(chk):
     check_export_params(chk, it)
     check_data_modes(chk, tus, 'R06.3')
     check_mixed_entities(chk, it)
+    # R06.8: which segments are copied at instantiation is decided by the reader's active/passive classification of the three
+    # segment encodings (0: active in memory 0, 1: passive, 2: active with explicit memory index) - rule shared with C08 R08.5
+    from . import c08
+    rtu = astdb.dump_ast(astdb.src('w2c2/reader.c'))
+    chk.unit(rtu)
+    c08.check_segment_kinds(chk, rtu, rule='R06.8')
+    chk.floor('R06.8', 6)
     chk.floor('R06.1', 100)
     chk.floor('R06.2', 100)
     chk.floor('R06.3', 60)
